@@ -70,7 +70,7 @@ Record pkg := mkPkg {
 (** * Rows of a generated file *)
 
 Inductive lit :=
-| LString (x : str)          (* token.STRING, after unquoting *)
+| LString (quoted : str)     (* token.STRING: the quoted literal handed to MakeFromLiteral *)
 | LInt (digits : str)        (* token.INT, the digits as printed *)
 | LFloat (num den : Z)       (* token.FLOAT, the value of the printed literal, lowest terms *)
 | LFail.
@@ -118,7 +118,7 @@ Definition y_is_restricted (p : pkg) (name : str) : bool := mem (pk_name p ++ na
 (** fixConst *)
 Definition y_const (q : str) (v : cval) : yexpr :=
   match v with
-  | CString x => YLit (LString x)
+  | CString x => YLit (LString (print_str x))
   | CInt z => YLit (LInt (print_Z z))
   | CFloat a b => YLit (match fix_float a b with
                         | Some r => let r' := norm r in LFloat (fst r') (snd r')
@@ -376,7 +376,7 @@ Definition denote_val (p : pkg) (d : decl) (e : yexpr) : gbind :=
       else if str_eqb q (pk_name p ++ n) then GSandbox n
       else GValue q
   | YAddr q => if str_eqb q (pk_name p ++ dot_s ++ n) then GAddr n else GValue q
-  | YLit (LString x) => GConst (CString x)
+  | YLit (LString q) => match parse_str q with Some x => GConst (CString x) | None => GValue [] end
   | YLit (LInt ds) => match parse_Z ds with Some z => GConst (CInt z) | None => GValue [] end
   | YLit (LFloat a b) => GConst (CFloat a b)
   | YLit LFail => GValue []
